@@ -647,10 +647,15 @@ func (e *Engine) run(fn *ssa.Function, entry *State, args []AbsVal) []exitState 
 							}
 						}
 					} else if src != nil {
+						renamed := false
 						for _, q := range phis {
 							if q.Edges[idx] == src {
 								pv.idx = q
+								renamed = true
 							}
+						}
+						if sp, isPhi := src.(*ssa.Phi); isPhi && !renamed && sp.Block() == to && sp.Edges[idx] != ssa.Value(sp) {
+							pv.idx = nil // read at the old value of an index that is re-assigned on this edge
 						}
 					}
 				}
@@ -658,6 +663,22 @@ func (e *Engine) run(fn *ssa.Function, entry *State, args []AbsVal) []exitState 
 					delete(ns.vals, phi)
 				} else {
 					ns.setv(phi, pv)
+				}
+			}
+			// bytes read at the old value of an index phi that changes on this edge no longer describe the byte at the index
+			for _, q := range phis {
+				if q.Edges[idx] == ssa.Value(q) {
+					continue
+				}
+				for v, avP := range ns.vals {
+					if avP.k == vByte && avP.idx == ssa.Value(q) {
+						if _, isPhiOfTo := v.(*ssa.Phi); isPhiOfTo && v.(*ssa.Phi).Block() == to {
+							continue // just assigned above with the renamed index
+						}
+						av := *avP
+						av.idx = nil
+						ns.vals[v] = &av
+					}
 				}
 			}
 			back := to.Dominates(pb)
